@@ -94,13 +94,17 @@ class Tree:
         self.real_by_tok = {}
         self.versions = {}     # realpath -> list of tokens that were ever current
         n = 0
+        # every file its own mtime (replacing one by another is visible to stat()), in a seeded
+        # order: what replaces a file may be older or newer than it
+        ticks = list(range(1, len(BASE_FILES) + 1))
+        Rng(sc.get("sched_seed", 0), ("mtimes",)).shuffle(ticks)
         for rel, kind in BASE_FILES:
             if rel in sc["absent"]:
                 continue
             rel = rel.replace("@PKG@", self.pkg)
             n += 1
             tok = "%s:%d" % (kind, n)
-            fs.write(rel, tok, n)       # every file its own mtime: replacing one by another is visible to stat()
+            fs.write(rel, tok, ticks[n - 1])
             rp = os.path.realpath(fs.path(rel))
             self.tok_by_real[rp] = tok
             self.real_by_tok[tok] = rp
@@ -123,7 +127,7 @@ class Tree:
         fs = self.fs
         p = fs.path(m["path"])
         self.nmut = getattr(self, "nmut", 0) + 1
-        tick = 500 + self.nmut
+        tick = (-100 - self.nmut) if m.get("older") else (500 + self.nmut)
 
         def remove():
             if os.path.islink(p) or os.path.isfile(p):
@@ -276,7 +280,7 @@ class C22:
         "check-then-open races with a concurrently mutated tree are outside the stated quantifier; the tree is "
         "static in the fault-free configuration and only file contents (never links) change in the fault configuration",
     ]
-    REQUIRED_REACH = ["reach.feature.abs", "reach.feature.dotdot", "reach.feature.link", "reach.feature.long",
+    REQUIRED_REACH = ["fault.cancel_landed", "reach.feature.abs", "reach.feature.dotdot", "reach.feature.link", "reach.feature.long",
                       "reach.feature.nul", "reach.feature.ctrl", "reach.outcome.ok", "reach.outcome.notfound",
                       "reach.cache_hit", "reach.link_followed", "reach.link_rejected", "reach.async_overlap",
                       "fault.errno", "fault.edit_between_calls", "reach.pkg.ok"]
@@ -341,6 +345,8 @@ class C22:
                     seq.append({"op": "req", "uid": uid, "name": nm, "mode": rng.choice(["sync", "async"]),
                                 "via": rng.weighted([("direct", 6), ("include", 2), ("get_source", 2)])})
                     uid += 1
+                if mut["kind"] == "write" and rng.chance(0.4):
+                    mut["older"] = True      # the replacement carries an OLDER mtime than anything in the tree
                 seq.append({"op": "mutate", "uid": uid, **mut})
                 uid += 1
                 for nm in [rng.choice(names) for _ in range(rng.randint(1, 3))]:
@@ -349,6 +355,37 @@ class C22:
                     uid += 1
                 ops[at:at] = seq
             clients = [{"id": 0, "ops": ops}]
+        elif config == "nofault" and loader in ("fs", "cfs") and rng.chance(0.2):
+            # phases: concurrent clients, then - with nothing in flight - one mutation of the tree,
+            # then concurrent clients again, several of them asking for the names the mutation touched
+            phases = []
+            uid = nreq
+            for _ in range(rng.randint(1, 2)):
+                mut, names = self._gen_mutation(rng, sc)
+                if mut["kind"] == "write" and rng.chance(0.4):
+                    mut["older"] = True
+                pcl = []
+                for c in range(rng.randint(1, 4)):
+                    ops = []
+                    for _ in range(rng.randint(1, 3)):
+                        ops.append({"op": "req", "uid": uid, "name": rng.choice(names) if rng.chance(0.8) else rng.choice(pool),
+                                    "mode": rng.choice(["sync", "async", "async"]),
+                                    "via": rng.weighted([("direct", 6), ("include", 2), ("get_source", 2)])})
+                        uid += 1
+                    pcl.append({"id": c, "ops": ops})
+                # warm the cache with the touched names before the first mutation
+                for nm in names:
+                    rng.choice(clients)["ops"].append({"op": "req", "uid": uid, "name": nm, "mode": rng.choice(["sync", "async"]),
+                                                       "via": "direct"})
+                    uid += 1
+                phases.append({"mutate": {"op": "mutate", "uid": uid, **mut}, "clients": pcl})
+                uid += 1
+            sc["phases"] = phases
+        if config == "nofault" and loader in ("fs", "cfs"):
+            for c in clients:
+                for op in c["ops"]:
+                    if op["op"] == "req" and op["mode"] == "async" and rng.chance(0.08):
+                        op["cancel_after"] = round(rng.random() * 0.01, 5)
         sc["clients"] = clients
         return sc
 
@@ -589,7 +626,27 @@ class C22:
                         bump(st, "reach.async_overlap")
                     in_flight[0] += 1
                     try:
-                        out = ("ok", await perform_async(op, name))
+                        if op.get("cancel_after") is not None:
+                            sub = loop.create_task(perform_async(op, name), name="r%d" % op["uid"])
+                            loop.streams[sub.get_name()] = loop.rng.fork("op", op["uid"], "sub")
+                            fired = []
+                            h = loop.call_later(op["cancel_after"], lambda: (fired.append(1), sub.cancel()))
+                            try:
+                                out = ("ok", await sub)
+                            except asyncio.CancelledError:
+                                if not (sub.cancelled() and fired):
+                                    raise
+                                # the request was cancelled by its caller: nothing to judge, but
+                                # whatever it left behind is seen by the requests that follow
+                                bump(st, "fault.cancel_landed")
+                                history.append([op["uid"], inv, loop.event("req.cancelled"), "cancelled"])
+                                plan.faults = []
+                                plan.actions = []
+                                return
+                            finally:
+                                h.cancel()
+                        else:
+                            out = ("ok", await perform_async(op, name))
                     finally:
                         in_flight[0] -= 1
             except (SimDeadlock, SimStepCap):
@@ -667,6 +724,13 @@ class C22:
             ts = [loop.create_task(client(c), name="c%d" % c["id"]) for c in sc["clients"] if c["ops"]]
             if ts:
                 await asyncio.gather(*ts)
+            for k, ph in enumerate(sc.get("phases") or []):
+                if viol:
+                    return
+                await client({"id": 90 + k, "ops": [ph["mutate"]]})
+                ts = [loop.create_task(client(c), name="p%dc%d" % (k, c["id"])) for c in ph["clients"] if c["ops"]]
+                if ts:
+                    await asyncio.gather(*ts)
 
         try:
             loop.run_sim(root())
@@ -752,6 +816,16 @@ class C22:
         for i, c in enumerate(cl):
             for cand in shrink_list(c["ops"]):
                 yield {**sc, "clients": cl[:i] + [{**c, "ops": cand}] + cl[i + 1:]}
+        ph = sc.get("phases") or []
+        for k in range(len(ph)):
+            yield {**sc, "phases": ph[:k] + ph[k + 1:]}
+            pc = ph[k]["clients"]
+            for i in range(len(pc)):
+                if len(pc) > 1:
+                    yield {**sc, "phases": ph[:k] + [{**ph[k], "clients": pc[:i] + pc[i + 1:]}] + ph[k + 1:]}
+                for cand in shrink_list(pc[i]["ops"]):
+                    yield {**sc, "phases": ph[:k] + [{**ph[k], "clients": pc[:i] + [{**pc[i], "ops": cand}] + pc[i + 1:]}]
+                           + ph[k + 1:]}
         if sc["absent"]:
             yield {**sc, "absent": []}
         if len(sc["roots"]) > 1:
@@ -774,6 +848,8 @@ class C22:
             yield {k: v for k, v in op.items() if k != "fault"}
         if "edit_at" in op:
             yield {k: v for k, v in op.items() if k != "edit_at"}
+        if "cancel_after" in op:
+            yield {k: v for k, v in op.items() if k != "cancel_after"}
 
 
 if __name__ == "__main__":
